@@ -19,6 +19,7 @@ type DFSArg struct {
 	Shards  int    `json:"shards"`
 	Shard   int    `json:"shard"`
 	Dup     bool   `json:"dup"`
+	SD      int    `json:"sd"` // shard depth (default 2)
 }
 
 func (a DFSArg) Name() string {
@@ -134,6 +135,13 @@ func runWritersDFS(c *explore.Ctx, prop string, ops func(a DFSArg) []WOp, setup 
 		return
 	}
 	mem := NewMemory()
+	sd := a.SD
+	if sd == 0 {
+		sd = 2
+	}
+	if sd > a.Depth {
+		sd = a.Depth
+	}
 	d := &explore.DFS{
 		Scenario: a.Name(), Space: fmt.Sprintf("%s/w%d/%s", a.Kind, a.Writers, a.Alpha),
 		New: func() (explore.World, error) {
@@ -146,11 +154,8 @@ func runWritersDFS(c *explore.Ctx, prop string, ops func(a DFSArg) []WOp, setup 
 			setup(w, a)
 			return w, nil
 		},
-		MaxDepth: a.Depth, ShardDepth: 2, Shards: a.Shards, Shard: a.Shard,
+		MaxDepth: a.Depth, ShardDepth: sd, Shards: a.Shards, Shard: a.Shard,
 		Stats: c.Stats, Journal: c.JournalHist, Poison: c.PoisonSet(), Nontrivial: nontrivialMerged, Expired: c.Expired,
-	}
-	if a.Depth < 2 {
-		d.ShardDepth = a.Depth
 	}
 	d.Run()
 	for i := range c.Stats.Violations {
